@@ -372,7 +372,7 @@ func JudgeC12(c *Case, ex *Exec) []Finding {
 
 	// spacing
 	if len(o.Glyphs) > 0 {
-		for _, sp := range []fixed.Int26_6{-192, 64, 160, 2560} {
+		for _, sp := range []fixed.Int26_6{-192, 64, 160, 2560, 97, 1, -33} { // odd values: the half spacing on each side is truncated
 			// word spacing
 			w := copyOut(o)
 			w.AddWordSpacing(c.Text, sp)
